@@ -50,6 +50,7 @@ pub struct Model {
     pub parties: Vec<Party>,
     pub fixture: MithrilFixture,
     keys: BTreeMap<(PartyIdx, KeyGen), (ProtocolInitializer, SignerWithStake)>,
+    keysets: BTreeMap<BTreeMap<PartyIdx, KeyGen>, Arc<KeySet>>,
     /// recording epoch -> accepted registrations (last key wins, like the store's insert-or-replace)
     pub store: BTreeMap<u64, BTreeMap<PartyIdx, KeyGen>>,
 }
@@ -79,7 +80,7 @@ impl Model {
             // key generation 0 = the fixture's own key
             keys.insert((i, 0u8), (s.protocol_initializer.clone(), s.signer_with_stake.clone()));
         }
-        Model { params, parties, fixture, keys, store: BTreeMap::new() }
+        Model { params, parties, fixture, keys, keysets: BTreeMap::new(), store: BTreeMap::new() }
     }
 
     pub fn n(&self) -> usize {
@@ -141,9 +142,12 @@ impl Model {
     }
 
     /// derive the closed key registration / AVK of a member set (None for the empty set)
-    pub fn keyset(&mut self, members: &BTreeMap<PartyIdx, KeyGen>) -> Option<KeySet> {
+    pub fn keyset(&mut self, members: &BTreeMap<PartyIdx, KeyGen>) -> Option<Arc<KeySet>> {
         if members.is_empty() {
             return None;
+        }
+        if let Some(ks) = self.keysets.get(members) {
+            return Some(ks.clone());
         }
         let signers: Vec<SignerWithStake> = members.iter().map(|(p, g)| self.signer_with_stake(*p, *g)).collect();
         let builder = SignerBuilder::new(&signers, &self.params).ok()?;
@@ -151,10 +155,12 @@ impl Model {
         // the closed registration is needed to create signers; SignerBuilder keeps it private, so derive it the
         // way SignerBuilder does (same public crypto_helper API)
         let closed = closed_registration(&signers, &self.params)?;
-        Some(KeySet { members: members.clone(), signers, closed, avk })
+        let ks = Arc::new(KeySet { members: members.clone(), signers, closed, avk });
+        self.keysets.insert(members.clone(), ks.clone());
+        Some(ks)
     }
 
-    pub fn keyset_for_signing_epoch(&mut self, e: u64) -> Option<KeySet> {
+    pub fn keyset_for_signing_epoch(&mut self, e: u64) -> Option<Arc<KeySet>> {
         let m = self.members_for_signing_epoch(e);
         self.keyset(&m)
     }
